@@ -1,4 +1,6 @@
 import CkptVerif.Proofs.Cache
+import CkptVerif.Proofs.Process
+import CkptVerif.Proofs.ProcessRefine
 /-!
 # C15 — a schedule's stream depends only on its own parameters (mechanism: `cache_step`)
 
@@ -32,5 +34,29 @@ theorem C15_history (history : List (Nat × Nat))
   cachedCall_history_independent memoFM memoF memoFM_sim memoF_local history hh fuel n s hfuel hv
 
 example : (runCalls memoFM [(10, 3), (7, 9), (10, 3), (5, 2)] []).2.length = 4 := by decide
+
+/-! ## the process level: any interleaving of constructions, `next`/`finalize` calls on any objects,
+observer reads and helper calls (`Model/Process.lean`: the three memo tables are process-global state;
+a Mixed object on the memoisation path queries the planner lazily, through the shared table, at each
+`next()`) -/
+
+/-- the answers object `i` gives (constructor outcome excluded, see `C15_process_constructor`) in ANY
+history equal those it gives in a fresh process that runs only its own operations -/
+alias C15_process := Proc.C15_process
+alias C15_process_constructor := Proc.C15_process_constructor
+/-- two objects built with equal parameters at any two points of any two histories and driven by the same
+own sequence of `next`/`finalize`/observer calls answer identically -/
+alias C15_equal_params := Proc.C15_equal_params
+/-- observer reads (`n`, `r`, `max_n`, `is_exhausted`, `is_running`, `uses_storage_type`) leave the whole
+process state unchanged, so they can be inserted or removed anywhere -/
+alias C15_observers := Proc.C15_observers
+alias C15_observer_erase := Proc.C15_observer_erase
+/-- the public helpers answer with the value of the recursive specification after any history -/
+alias C15_helpers_pure := Proc.C15_helpers_pure
+/-- every memo table entry is correct after any history -/
+alias C15_caches_ok := Proc.CachesOK_run
+/-- the lazily planning Mixed object in any history = the pure `Sched` machine of the stream theorems -/
+alias C15_mixed_process := Proc.C15_mixed_process
+alias C15_plain_process := Proc.C15_plain_process
 
 end Ckpt
